@@ -118,7 +118,7 @@ def match_known(prop: str, ob: Ob, known):
 
 
 def write_replay(prop: str, ob: Ob) -> str:
-    d = os.path.join(ROOT, "out", "replay", prop)
+    d = os.path.join(os.environ.get("VERIF_OUT_DIR", os.path.join(ROOT, "out")), "replay", prop)
     os.makedirs(d, exist_ok=True)
     name = hashlib.sha1(ob.id.encode()).hexdigest()[:10] + "_" + "".join(c if c.isalnum() else "_" for c in ob.id)[:80] + ".json"
     path = os.path.join(d, name)
@@ -206,8 +206,9 @@ def finish(rep: Report) -> int:
         level = "other"
     ev = {"property_id": rep.prop, "tier": rep.tier, "seed": rep.seed, "level": level, "coverage": cov,
           "assumptions": sorted(rep.assumptions), "wall_s": round(time.time() - rep.t0, 2), "violations": len(violations)}
-    os.makedirs(os.path.join(ROOT, "evidence"), exist_ok=True)
-    json.dump(ev, open(os.path.join(ROOT, "evidence", rep.prop + ".json"), "w"), indent=1, default=str)
+    evdir = os.environ.get("VERIF_EVIDENCE_DIR", os.path.join(ROOT, "evidence"))     # (redirected only by tools/seed_run.sh)
+    os.makedirs(evdir, exist_ok=True)
+    json.dump(ev, open(os.path.join(evdir, rep.prop + ".json"), "w"), indent=1, default=str)
     decided = [o for o in rep.obs if o.status in (PROVED, BOUNDED, KNOWN)]
     print(f"[{rep.prop}] tier={rep.tier} level={level} deductive {n_dis}/{n_ob} proved; T3 contracts {sum(1 for o in t3 if o.status == BOUNDED)}/{len(t3)} held on {evals} evaluations; "
           f"undecided {len(undec)}; known {len(printed)}; violations {len(violations)}; {ev['wall_s']} s")
@@ -215,6 +216,9 @@ def finish(rep: Report) -> int:
         print(f"  undecided: {o.id}: {o.detail[:200]}")
     if violations:
         return 1
+    if ev["coverage"].get("engine_mismatch"):
+        print(f"[{rep.prop}] the engine's model of Python disagreed with CPython on an explored path: engine failure (exit 3), not a verdict")
+        return 3
     if not decided:
         return 2
     return 0
